@@ -96,7 +96,7 @@ P = {
          'PostCancelReject, WaitOnlyWhenQuiet as invariants, NothingAfterWait as action property, ProducersReleased / WaitReturns (~>) in the model; on the real code: cancellation fired inside each protocol hook, late pushes to every lane must return the context error, Wait must not return while a task runs and must have returned / left no goroutine at the final quiescent state',
          "witnessed schedules only (widened by hook gates, seeded yields, systematic scenario families); bounded model constants as stated", '5/C07'),
  "C08": ('spec/tasklane/TaskLane.tla (+TaskLaneMC, MC_*.cfg, MUT_*.cfg), spec/tasklane/TaskLaneCases.tla, proofs/tasklane/TaskLaneShareProof.tla',
-         'TLA+ model of the tasklane protocol with explicit Go channel/select semantics (poll-and-park, rendezvous only with a parked peer, close(done) claiming parked goroutines, timer), one action per select/statement; TLC checks all interleavings incl. cancellation at every point, safety invariants and liveness under weak fairness, and rejects spec mutants; NoIdleWhileWaiting is also proved for ANY number of lanes, queue size, tasks and producers with the TLA+ proof system (77 obligations); traces of the real TaskLane (verif hooks as event sources and as cancellation gates at every protocol point, quiescence by goroutine census) are validated by TLC against the statement layer',
+         'TLA+ model of the tasklane protocol with explicit Go channel/select semantics (poll-and-park, rendezvous only with a parked peer, close(done) claiming parked goroutines, timer), one action per select/statement; TLC checks all interleavings incl. cancellation at every point, safety invariants and liveness under weak fairness, and rejects spec mutants; NoIdleWhileWaiting and AtMostNRunning are also proved for ANY number of lanes, queue size, tasks and producers with the TLA+ proof system (88 obligations); traces of the real TaskLane (verif hooks as event sources and as cancellation gates at every protocol point, quiescence by goroutine census) are validated by TLC against the statement layer',
          'AtMostNRunning, NoIdleWhileWaiting as invariants and no-head-of-line-blocking liveness with a pinned task (rejecting the no-sharing mutant) in the model; on the real code: overlapping task bodies counted, all-busy then release-all-but-one scenarios per lane and push order, pinned-worker scenarios judged at quiescence',
          "witnessed schedules only (widened by hook gates, seeded yields, systematic scenario families); bounded model constants as stated", '5/C08'),
  "C14": ('spec/tasklane/TaskLane.tla (+TaskLaneMC, MC_*.cfg, MUT_*.cfg), spec/tasklane/TaskLaneCases.tla, proofs/tasklane/TaskLaneCountProof.tla, TaskLaneStatusProof.tla',
